@@ -22,6 +22,8 @@ pub enum Deps {
     TwoEqual,
     /// three entries [a, b, a]: a repeated, not adjacent
     ThreeAba,
+    /// the same id five times: longer than the inline capacity (4) of the dependency list
+    FiveSame,
 }
 
 pub fn step(sh: Shape, barrier: usize, deps: Deps, new_r: usize, new_w: usize) {
@@ -41,6 +43,7 @@ pub fn step(sh: Shape, barrier: usize, deps: Deps, new_r: usize, new_w: usize) {
         Deps::One => 1,
         Deps::Two | Deps::TwoEqual => 2,
         Deps::ThreeAba => 3,
+        Deps::FiveSame => 1,
     };
     if nd >= 1 {
         d[0] = any_below(n);
@@ -58,6 +61,13 @@ pub fn step(sh: Shape, barrier: usize, deps: Deps, new_r: usize, new_w: usize) {
     if nd == 3 {
         d[2] = d[0];
         dep.push(SystemId(perm_at(&perm, n, d[2])));
+    }
+    if deps == Deps::FiveSame {
+        let mut i = 0;
+        while i < 4 {
+            dep.push(SystemId(perm_at(&perm, n, d[0])));
+            i += 1;
+        }
     }
     // positions of the dependencies: d[i] are slots (comparisons only)
     let ds = [sh.stage_of(d[0]), sh.stage_of(d[1]), sh.stage_of(d[2])];
@@ -131,7 +141,7 @@ pub fn step(sh: Shape, barrier: usize, deps: Deps, new_r: usize, new_w: usize) {
             }
             if before_barrier_dep {
                 assert!(forced, "C10[dep-before-barrier]: stage skipped although nothing in it forces that");
-            } else if deps == Deps::TwoEqual || deps == Deps::ThreeAba {
+            } else if deps == Deps::TwoEqual || deps == Deps::ThreeAba || deps == Deps::FiveSame {
                 assert!(forced, "C10[duplicate-dep]: stage skipped although nothing in it forces that");
             } else {
                 assert!(forced, "C10: stage skipped although nothing in it forces that");
